@@ -69,6 +69,9 @@ impl<'a> PrettyPrinter<'a> {
                 import_items_nodes.push(node);
             }
         }
+        // A line comment at the end of the prefix must not swallow what follows.
+        let ends_with_line_comment =
+            (prefix_part.last()).is_some_and(|node| node.kind() == SyntaxKind::LineComment);
         // An empty pair of parentheses holds no item either.
         if import_items_nodes.iter().all(|node| {
             matches!(
@@ -76,14 +79,15 @@ impl<'a> PrettyPrinter<'a> {
                 SyntaxKind::LeftParen | SyntaxKind::RightParen | SyntaxKind::Space
             )
         }) {
-            return prefix_doc;
+            return if ends_with_line_comment {
+                prefix_doc + self.arena.hardline()
+            } else {
+                prefix_doc
+            };
         }
 
         let import_items_doc = self.convert_import_items(ctx, import_items_nodes);
-        // A line comment at the end of the prefix must not swallow the items.
-        let separator = if (prefix_part.last())
-            .is_some_and(|node| node.kind() == SyntaxKind::LineComment)
-        {
+        let separator = if ends_with_line_comment {
             self.arena.hardline()
         } else {
             self.arena.space()
